@@ -255,6 +255,30 @@ def check_batched(rng, tier, report):
         except Exception as e:
             r.kill(); f.stop(); report("batched/%dplanes-%d" % (planes, k), False, {"exception": repr(e)})
 
+def check_coverage(rng, tier, report):
+    """the Coverage tab's heat map while several aircraft report from the same 0.01-degree cell: simultaneously (the cell's counter grows with
+    every pass of the main loop) and one after another (it grows with every new aircraft); every tab is visited and the terminal resized meanwhile"""
+    for name, n, reps in (("two-in-one-cell", 2, 25), ("nine-through-one-cell", 9, 2)) if tier == "quick" else (("two-in-one-cell", 2, 120), ("nine-through-one-cell", 9, 3), ("three-in-one-cell", 3, 60)):
+        sub = Rng(rng.next())
+        flights = []
+        for i in range(n):
+            f = gentrack.Flight(sub, 0xA20000 + 0x101 * i, RX); f.lat = Fr(RX[0]) + Fr(1, 10); f.lon = Fr(RX[1]) + Fr(1, 10); flights.append(f)
+        script = []
+        for rep in range(reps):
+            for f in flights:
+                script += [("send", fline(f.position(sub, odd=0)) + fline(f.position(sub, odd=1))), ("sleep", 0.01)]
+        script.append(("sleep", 600))
+        r, f = start([], 40, 140, script)
+        try:
+            r.pump(1.0)
+            seen = []
+            for key in (KEYS["F2"], KEYS["F1"], KEYS["F2"], b"-", b"+", KEYS["F3"], KEYS["F4"], KEYS["F2"]):
+                r.send(key); r.pump(0.5); seen.append(screen_state(r.screen.text())["tab"])
+            r.resize(12, 60); r.pump(0.4); r.resize(40, 140); r.pump(0.4)
+            finish(r, f, b"q", "coverage/" + name, report, {"aircraft_in_one_cell": n, "position_pairs_each": reps, "tabs_seen": seen}, ok=seen[-1] == "Coverage")
+        except Exception as e:
+            r.kill(); f.stop(); report("coverage/" + name, False, {"exception": repr(e)})
+
 def check_waiting(rng, tier, report):
     """quit while radar is still waiting for its TCP connection (nothing listens)"""
     import socket
